@@ -17,7 +17,7 @@ RULE = ("WAL histories made by SQLite 3.40.1 (inserts, updates incl. same-size i
 ASSUMPTIONS = ["the per-commit claims assume the database file predates the log's frames; the passive-checkpoint histories only check the newest version",
                "WAL checksums are not read by the tool; the independent reader (harness/gen/walreader.py) verifies them"]
 
-KINDS = ["plain", "spill", "overflow_inplace", "ddl", "checkpoint_restart", "passive_checkpoint", "grow_shrink",
+KINDS = ["plain", "spill", "overflow_inplace", "schema_overflow", "ddl", "checkpoint_restart", "passive_checkpoint", "grow_shrink",
          "header_pragmas", "rootmove", "fresh_wal", "freelist_drain", "wide_schema", "restart_after_rollback"]
 
 
@@ -105,7 +105,7 @@ def check_history(ctx, h, sc, tag):
     C.keep_failing_files(ctx, n0, h.db, h.wal)
 
 
-def run(ctx, n_quick=27, n_thorough=400):
+def run(ctx, n_quick=28, n_thorough=400):
     sc = C.Scratch()
     try:
         r = ctx.rng
@@ -114,7 +114,7 @@ def run(ctx, n_quick=27, n_thorough=400):
             cfg = F.random_cfg(r, page_sizes=[512, 1024, 4096] if i % 5 else [8192, 65536, 2048], small=True)
             cfg["auto_vacuum"] = [0, 1, 2][i % 3]
             kind = KINDS[i % len(KINDS)]
-            if kind == "wide_schema":
+            if kind in ("wide_schema", "schema_overflow"):
                 cfg["page_size"] = 512      # schema b-tree with an interior root and several leaves
             if kind == "fresh_wal":
                 cfg["encoding"] = ["UTF-16be", "UTF-16le", "UTF-8"][(i // len(KINDS)) % 3]
